@@ -54,9 +54,9 @@ class Scen(CompScenario):
         if used and rng.random() < pi:
             stim["free_idx.en"] = 1
             stim["free_idx.i.idx"] = self._pick_pos(rng, used)
-            if stim.get("free.en"):
-                # free and free_idx of one cycle: the statement does not say what two different designations do
-                # together -- both name the same identifier (they still contend for the one removal)
+            if stim.get("free.en") and rng.random() < 0.5:
+                # free and free_idx of one cycle naming the same identifier (they contend for the one removal);
+                # otherwise two different designations: every call that is executed removes its identifier
                 stim["free_idx.i.idx"] = self.lst.index(stim["free.i.ident"])
         stim["order.en"] = int(cyc == 0 or self.just_cleared or rng.random() < po)
         stim["clear.en"] = int(rng.random() < pc)
@@ -75,8 +75,6 @@ class Scen(CompScenario):
             self.premise(f_ident in lst, f"free of identifier {f_ident} which is not allocated")
         if en["free_idx"]:
             self.premise(f_idx < used, f"free_idx of index {f_idx} with only {used} allocated")
-        if en["free"] and en["free_idx"]:
-            self.premise(lst.index(f_ident) == f_idx, "free and free_idx of one cycle designate the same identifier")
 
         ready = {"alloc": used < n, "free": True, "free_idx": True, "order": True, "clear": True}
         for p in self.ports:
@@ -170,14 +168,22 @@ class Scen(CompScenario):
                    nontrivial=bool(changing) and (used in (0, 1, n - 1, n) or done["clear"] or
                                                   (done["alloc"] and freed_pos is not None)))
 
-        # ---- step the model: alloc appends, free / free_idx remove the designated one, clear last
+        # ---- step the model: alloc appends, every executed free / free_idx removes the identifier it designates
+        # (positions refer to the beginning of the cycle), clear last
         if changing:
             self.pristine = False
+        gone = set()
+        if done["free"]:
+            gone.add(lst.index(f_ident))
+        if done["free_idx"]:
+            gone.add(f_idx)
+        if len(gone) > 1:
+            self.hit("free_and_free_idx_removed_two_identifiers")
         if a_ident is not None:
             lst.append(a_ident)
-        if freed_pos is not None:
-            self.freed_ever.add(lst[freed_pos])
-            del lst[freed_pos]
+        for pos in sorted(gone, reverse=True):
+            self.freed_ever.add(lst[pos])
+            del lst[pos]
         self.just_cleared = False
         if done["clear"]:
             lst.clear()
